@@ -464,6 +464,33 @@ Definition local_write (m : msg) (es : dirent) : dirent :=
   end.
 Definition local_dir (body : list msg) : dirent := fold_left (fun es m => local_write m es) body fresh_dir.
 
+(* ------------------------------------------------------------------ what `record --host` sends at the end *)
+(* cmds/record.c write_symbol_files(), `if (opts->host)`: send_task_file, send_map_files, send_sym_files,
+   send_dbg_files, send_info_file - the file list is a FUNCTION OF THE LOCAL DIRECTORY (scandir with the
+   filters filter_map / filter_sym / filter_dbg, alphasort), not of the options.
+   (kernel_header/kallsyms with -k, events.txt if present with -E, the log file: not modelled here.) *)
+Definition n_task : bytes := str "task.txt".
+Definition last4 (n : bytes) : bytes := skipn (length n - 4) n.
+(* !strncmp(suf, name + len - 4, 4); names shorter than 4 bytes never match (the C reads before the name) *)
+Definition has_suffix4 (suf n : bytes) : bool := (4 <=? length n)%nat && list_eqb (last4 n) suf.
+Definition is_map_name (n : bytes) : bool := list_eqb (firstn 4 n) (str "sid-") && has_suffix4 (str ".map") n.
+Definition is_sym_name (n : bytes) : bool := has_suffix4 (str ".sym") n.
+Definition is_dbg_name (n : bytes) : bool := has_suffix4 (str ".dbg") n.
+Definition sel (p : bytes -> bool) (L : dirent) : dirent := filter (fun e => p (fst e)) L.
+Definition msg_of_file (e : bytes * bytes) : msg := MMeta (fst e) (snd e).
+Definition msg_of_info (e : bytes * bytes) : msg := MInfo (firstn HDR (snd e)) (skipn HDR (snd e)).
+(* L: the metadata files of the local directory (name -> content), in alphasort order *)
+Definition meta_msgs (L : dirent) : list msg :=
+  map msg_of_file (sel (list_eqb n_task) L) ++
+  map msg_of_file (sel is_map_name L) ++
+  map msg_of_file (sel is_sym_name L) ++
+  map msg_of_file (sel is_dbg_name L) ++
+  map msg_of_info (sel (list_eqb n_info) L).
+(* the names the sequence above covers *)
+Definition sent_name (n : bytes) : bool :=
+  list_eqb n_task n || is_map_name n || is_sym_name n || is_dbg_name n || list_eqb n_info n.
+Definition is_data (m : msg) : bool := match m with MData _ _ | MKernel _ _ | MPerf _ _ => true | _ => false end.
+
 (* ------------------------------------------------------------------ well-formedness *)
 Definition nonul (b : bytes) : bool := forallb (fun x => negb (x =? 0)) b.
 Definition wf_msg (m : msg) : bool :=
@@ -524,6 +551,9 @@ Record client_case := {
   cc_where : bytes;                (* directory that holds this client's data when the case is over
                                       (cc_dir, or cc_dir.old when a later client re-used the name) *)
   cc_body : list msg;              (* messages after MDir, before MEnd *)
+  cc_ndata : nat;                  (* the first cc_ndata messages of cc_body are trace data ... *)
+  cc_files : option dirent;        (* ... and the rest is what the real send_task_file/send_map_files/send_sym_files/
+                                      send_dbg_files/send_info_file made of the local metadata files (Some L) *)
   cc_abort : bool;                 (* true: no MEnd; the connection is reset once the server has read all *)
   cc_wsched : list Z;              (* short-write schedule given to the interposed write/writev *)
   cc_rsched : list nat;            (* chunk sizes given to the interposed read of the server *)
@@ -561,8 +591,15 @@ Definition agree_recv (cs : list client_case) : bool :=
 (* model of the local recorder == local directory of the implementation *)
 (* (the harness's local directory is made by the harness, not by create_directory: no default.opts) *)
 Definition agree_local (c : client_case) : bool := dir_eqb (local_dir (cc_body c)) (fresh_dir ++ cc_local c).
+(* the metadata part of what was sent (already compared with the wire by agree_send) is the model's function of
+   the local directory: every .sym/.dbg/map/task/info file, in the model's order *)
+Definition agree_meta (c : client_case) : bool :=
+  match cc_files c with
+  | None => true
+  | Some L => list_eqb (concat (map enc (skipn (cc_ndata c) (cc_body c)))) (concat (map enc (meta_msgs L)))
+  end.
 Definition agrees (cs : list client_case) : bool :=
-  forallb agree_send cs && forallb agree_local cs && agree_recv cs.
+  forallb agree_send cs && forallb agree_local cs && forallb agree_meta cs && agree_recv cs.
 (* PROPERTY on implementation outputs only *)
 Definition ok_case (cs : list client_case) : bool :=
   forallb (fun c => same_dir_opt (cc_local c) (cc_recv c)) cs.
